@@ -209,6 +209,9 @@ func Draw(t *rapid.T, m *Machine, o Opts) Step {
 			s.Exp = -int64(x.RawExp) + int64(rapid.IntRange(-50, 50).Draw(t, "exp"))
 		default:
 			s.Exp = rapid.Int64Range(-1<<33, 1<<33).Draw(t, "exp")
+			if rapid.IntRange(0, 2).Draw(t, "exp64") == 0 {
+				s.Exp = rapid.SampledFrom([]int64{math.MaxInt64, math.MinInt64, math.MaxInt64 - 7, math.MinInt64 + 7, 1 << 62, -1 << 62}).Draw(t, "expedge")
+			}
 		}
 	case "setint":
 		d := h.GenDigits(t, "i", o.MaxIntDigit)
